@@ -195,6 +195,58 @@ def to_float(n, env, memo=None):
     return memo[n]
 
 
+def eval_exact(n, env, memo=None):
+    """exact rational value at a rational point, with the same algebraic reading of float constants as to_z3 / to_poly.
+    Raises NotImplementedError where the value is not rational (square roots of non-squares, uninterpreted functions)."""
+    memo = {} if memo is None else memo
+    for x in topo([n]):
+        if x in memo:
+            continue
+        op = x.op
+        a = x.args
+        if op == 'var': r = Fraction(env[a[0]])
+        elif op == 'const':
+            if algebraic_sqrt(a[0]) is not None:
+                raise NotImplementedError('irrational constant')
+            r = algebraic(a[0])
+        elif op == 'add': r = memo[a[0]] + memo[a[1]]
+        elif op == 'sub': r = memo[a[0]] - memo[a[1]]
+        elif op == 'mul': r = memo[a[0]] * memo[a[1]]
+        elif op == 'div': r = memo[a[0]] / memo[a[1]]
+        elif op == 'neg': r = -memo[a[0]]
+        elif op == 'pow':
+            if not isinstance(a[1], int): raise NotImplementedError('non-integer power')
+            r = memo[a[0]] ** a[1]
+        elif op == 'sqrt':
+            v = memo[a[0]]
+            if v < 0: raise NotImplementedError('sqrt of negative')
+            pn, pd = math.isqrt(v.numerator), math.isqrt(v.denominator)
+            if pn * pn != v.numerator or pd * pd != v.denominator: raise NotImplementedError('irrational sqrt')
+            r = Fraction(pn, pd)
+        elif op == 'abs': r = abs(memo[a[0]])
+        elif op == 'sign':
+            v = memo[a[0]]; r = Fraction((v > 0) - (v < 0))
+        elif op == 'max': r = max(memo[a[0]], memo[a[1]])
+        elif op == 'min': r = min(memo[a[0]], memo[a[1]])
+        elif op == 'gt': r = memo[a[0]] > memo[a[1]]
+        elif op == 'ge': r = memo[a[0]] >= memo[a[1]]
+        elif op == 'eq': r = memo[a[0]] == memo[a[1]]
+        elif op == 'not': r = not memo[a[0]]
+        elif op == 'and': r = bool(memo[a[0]]) and bool(memo[a[1]])
+        elif op == 'or': r = bool(memo[a[0]]) or bool(memo[a[1]])
+        elif op == 'true': r = True
+        elif op == 'ite': r = memo[a[1]] if memo[a[0]] else memo[a[2]]
+        else: raise NotImplementedError(op)
+        memo[x] = r
+    return memo[n]
+
+
+def generic_point(names, salt=0):
+    """a deterministic generic rational point in (0, 1]^n (distinct small fractions per name)"""
+    import zlib
+    return {u: Fraction(1 + (zlib.crc32(f'{salt}:{u}'.encode()) % 96), 97) for u in names}
+
+
 # ---------------------------------------------------------------- z3
 def to_z3(n, zenv, memo, side, exact_consts=False):
     """exact Real term.  side collects tagged side constraints: ('sqrt', definition) / ('den', denominator != 0)."""
